@@ -15,32 +15,38 @@
                                with the IPv6 extension walk ended in front of the first
                                refilled header, which becomes the payload's protocol)
 
-   FULL STATEMENT (C04_headers_eq_slices), for all byte strings bs and ether types et:
+   FULL STATEMENT, PROVED (C04_headers_eq_slices), for all byte strings bs and ether types et:
      bytes_ok bs ->
        hagree (PacketHeaders.from_ethernet_slice bs) (Cut.from_ethernet true bs)
     /\ hagree (PacketHeaders.from_ether_type et bs)  (Cut.from_ether_type true et bs)
-    /\ (~ F11 bs -> hagree (PacketHeaders.from_ip_slice bs) (Cut.from_ip true bs))
-    /\ (F11 bs -> both from_ip results are Err)
+    /\ (F11 bs = false -> hagree (PacketHeaders.from_ip_slice bs) (Cut.from_ip true bs))
+    /\ (F11 bs = true -> all from_ip results are Err)
    together with C04_cut_is_slicing_* below (the cut variant IS SlicedPacket.from_* unless
    it stopped in front of a refilled extension header, and with cut = false always), where
-   F11 bs := first nibble 4 and length < 20 (known finding F11: the error records differ).
+   F11 bs := first nibble 4 and length < 20 (known finding F11: the error records differ,
+   witness C04_from_ip_records_refuted).  C04_headers_eq_slices_or_exception combines the
+   two: PacketHeaders = SlicedPacket, or the documented exception.
+   C04_headers_never_bug: no unwrap / push on a full ArrayVec / pointer subtraction
+   underflow / out-of-range index is reachable in the struct decoders.
 
-   PROVED HERE (names ending in _partial say what is missing):
+   PROVED HERE:
      - C04_cut_false_* and C04_cut_is_slicing_*: the relation between the cut variant and
        the strict slicing model, for whole packets and all three entry points (full);
-     - the per-layer agreement lemmas that carry the content of the property:
-       transport (UDP length handling = F5, TCP header length, ICMP header/payload split,
-       error fix-ups), IPv4 (+ authentication header, total length handling), the IPv6
-       extension chain in lockstep with the cut (with the invariant tying the struct's
-       slots to `refilled`, the fragmentation flag, the summed header length and the
-       pointer offset), IPv6 (payload length handling, chain, view of the network header);
-     - NOT proved in Coq: the assembly of these lemmas over the link-extension loop
-       (VLAN / MACsec, at most 3) and the three entry points, and IpHeaders::from_slice
-       (bare IP entry point).  These parts are covered by the correspondence run only
-       (model = implementation = cut slicing model on every generated case, including the
-       header windows). *)
+     - the per-layer agreement lemmas (names ending in _partial: they are the layers of
+       the full theorem): transport (UDP length handling = F5, TCP header length, ICMP
+       header/payload split, error fix-ups), IPv4 (+ authentication header, total length
+       handling), the IPv6 extension chain in lockstep with the cut (with the invariant
+       tying the struct's slots to `refilled`, the fragmentation flag, the summed header
+       length and the pointer offset), IPv6 (payload length handling, chain, view of the
+       network header);
+     - C04_headers_eq_slices, C04_headers_eq_slices_or_exception, C04_headers_never_bug
+       (Parse/HdrProofs3.v): the assembly over the link-extension loop (VLAN / MACsec, at
+       most 3, induction on the remaining capacity; offsets by pointer difference against
+       the cursor's running offset = F9), ARP, IpHeaders::from_slice (bare IP entry
+       point) and the three entry points. *)
 From EP Require Import Base.Bytes Parse.Types Parse.Slices Parse.Cursor Parse.View
-  Parse.HdrModel Parse.HdrView Parse.HdrCut Parse.HdrProofs Parse.HdrProofs2.
+  Parse.HdrModel Parse.HdrView Parse.HdrCut Parse.HdrProofs Parse.HdrProofs2 Parse.HdrProofs3
+  Parse.LaxSlices Parse.LaxCursor Parse.LaxView Parse.HdrLaxModel Parse.HdrLaxView Parse.HdrLaxProofs.
 Import SlicedPacketCursor.
 
 (* ---- the cut variant and the strict slicing model ------------------------------ *)
@@ -116,6 +122,62 @@ Theorem C04_ipv6_agrees_cut_partial : forall s, bytes_ok (snd s) ->
 Proof. exact v6_agree. Qed.
 Print Assumptions C04_ipv6_agrees_cut_partial.
 
+(* ---- the property: whole packets, all three entry points --------------------------- *)
+(* F11 (decidable): the first byte announces IPv4 and the buffer is shorter than 20 bytes *)
+Theorem C04_headers_eq_slices : forall bs et, bytes_ok bs ->
+  hagree (PacketHeaders.from_ethernet_slice bs) (Cut.from_ethernet true bs) /\
+  hagree (PacketHeaders.from_ether_type et bs) (Cut.from_ether_type true et bs) /\
+  (F11 bs = false -> hagree (PacketHeaders.from_ip_slice bs) (Cut.from_ip true bs)) /\
+  (F11 bs = true ->
+     (exists e, PacketHeaders.from_ip_slice bs = Err e) /\ (exists e, Cut.from_ip true bs = Err e) /\
+     (exists e, SlicedPacket.from_ip bs = Err e)).
+Proof. exact hdr_eq_slices. Qed.
+Print Assumptions C04_headers_eq_slices.
+
+(* PacketHeaders = SlicedPacket (same verdict and error record, same layers with the same
+   header windows, same payload window), or the documented exception: slicing cut at the
+   first refilled IPv6 extension header stopped there, and PacketHeaders is that result *)
+Theorem C04_headers_eq_slices_or_exception : forall bs et, bytes_ok bs ->
+  (hagree (PacketHeaders.from_ethernet_slice bs) (SlicedPacket.from_ethernet bs) \/
+   (stopped_at_ext (Cut.from_ethernet true bs) = true /\
+    hagree (PacketHeaders.from_ethernet_slice bs) (Cut.from_ethernet true bs))) /\
+  (hagree (PacketHeaders.from_ether_type et bs) (SlicedPacket.from_ether_type et bs) \/
+   (stopped_at_ext (Cut.from_ether_type true et bs) = true /\
+    hagree (PacketHeaders.from_ether_type et bs) (Cut.from_ether_type true et bs))) /\
+  (F11 bs = false ->
+   hagree (PacketHeaders.from_ip_slice bs) (SlicedPacket.from_ip bs) \/
+   (stopped_at_ext (Cut.from_ip true bs) = true /\
+    hagree (PacketHeaders.from_ip_slice bs) (Cut.from_ip true bs))).
+Proof. exact hdr_eq_slices_or_exception. Qed.
+Print Assumptions C04_headers_eq_slices_or_exception.
+
+(* the struct decoders (and the observer view of their results) never return Bug: the
+   unwraps in the to_header() conversions, push on the ArrayVec, the pointer offset
+   subtraction and checked indexing cannot fail, for every byte string (F11 included) *)
+Theorem C04_headers_never_bug : forall bs et b, bytes_ok bs ->
+  (PacketHeaders.from_ethernet_slice bs <> Bug b /\
+   PacketHeaders.from_ether_type et bs <> Bug b /\
+   PacketHeaders.from_ip_slice bs <> Bug b) /\
+  (hvres_of_h (PacketHeaders.from_ethernet_slice bs) <> HBug b /\
+   hvres_of_h (PacketHeaders.from_ether_type et bs) <> HBug b /\
+   hvres_of_h (PacketHeaders.from_ip_slice bs) <> HBug b).
+Proof. exact (fun bs et b H => conj (hdr_never_bug_raw bs et b H) (hdr_never_bug bs et b H)). Qed.
+Print Assumptions C04_headers_never_bug.
+
+(* the hypotheses are satisfiable, on both sides of F11, behind VLAN + MACsec *)
+Definition ex_vlan_macsec_arp : bytes :=
+  [1;2;3;4;5;6; 7;8;9;10;11;12; 129;0;  0;5; 136;229;
+   0;0; 0;0;0;1; 8;6;
+   0;1;8;0;6;4;0;1; 1;2;3;4;5;6; 10;0;0;1; 0;0;0;0;0;0; 10;0;0;2].
+Example C04_ex_assembly :
+  bytes_ok ex_vlan_macsec_arp /\ F11 ex_vlan_macsec_arp = false /\ F11 [64] = true /\
+  hvres_of_h (PacketHeaders.from_ethernet_slice ex_vlan_macsec_arp) =
+    HOk (mkHv (Some (0, 14)) [HvVlan (14, 4); HvMacsec (18, 8)] (Some (HvArp (26, 28))) None HvpEmpty).
+Proof.
+  split; [apply bytes_okb_spec; vm_compute; reflexivity|].
+  repeat split; vm_compute; reflexivity.
+Qed.
+
 (* ---- non-vacuity and witnesses (whole packets, by computation) ------------------ *)
 (* Ethernet / VLAN / IPv4 / UDP with a UDP length (8) below the IP payload size (12):
    both families cut the payload to 0 bytes (F5 situation) *)
@@ -187,3 +249,48 @@ Proof.
     (conj (proj1 (bytes_okb_spec [64]) eq_refl) (conj eq_refl eq_refl))).
 Qed.
 Print Assumptions C04_from_ip_records_refuted.
+
+(* ---- the lax families, per layer ------------------------------------------------------ *)
+(* Model of LaxPacketHeaders: Parse/HdrLaxModel.v (from_ethernet, from_ether_type, from_ip,
+   from_linux_sll, add_ip, the stop_err field; IpHeaders / Ipv6Extensions / Ipv4Extensions
+   ::from_slice_lax), compared exactly with the implementation on every generated case.
+   FULL STATEMENT (not proved): for the three entry points, the view of the
+   LaxPacketHeaders result = the converted LaxSlicedPacket result (headers, payload
+   window + incomplete flag, stop error and its layer) unless the documented exception.
+   Proved: the transport layer and the IPv4 layer (below); the IPv6 extension chain, the
+   link-extension loop and the entry points of the lax pair are covered by the
+   implementation-side comparison only (known record-level differences (C), (D) of
+   notes/C04.md live there). *)
+
+(* the "decode transport layer" block of LaxPacketHeaders::add_ip against
+   LaxSlicedPacketCursor::slice_transport, for ANY lax IP payload descriptor: same header
+   window, same payload window with the IP payload's incomplete flag, same stop error
+   (layer, offset, length source) *)
+Theorem C04_lax_transport_agrees_partial : forall self1 p c,
+  LaxSlicedPacketCursor.has_stop (lc_result c) = false -> lsp_transport (lc_result c) = None ->
+  ltr_rel self1 p c (LaxPacketHeaders.add_transport self1 p (lc_offset c))
+                    (LaxSlicedPacketCursor.slice_transport c p).
+Proof. exact lax_transport_agree. Qed.
+Print Assumptions C04_lax_transport_agrees_partial.
+
+(* the IPv4 arm of IpHeaders::from_slice_lax against the IPv4 arm of LaxIpSlice::from_slice
+   (outside F11): same header and authentication header slices, same payload descriptor
+   (three-way total-length fall-back, incomplete flag, length source), same stop error *)
+Theorem C04_lax_ipv4_agrees_partial : forall s b0,
+  bytes_ok (snd s) -> rd (snd s) 0 = Some b0 -> N.shiftr b0 4 = 4 -> 20 <= s_len s ->
+  lip4_rel (LaxIpHeaders.from_slice_lax s) (LaxIpSlice.from_slice s).
+Proof. exact lax_ip4_agree. Qed.
+Print Assumptions C04_lax_ipv4_agrees_partial.
+
+(* the lax struct model on the F5 packet (UDP length 8 in a 12 byte IP payload) and on a
+   packet cut inside the UDP header (stop error with offset and length source) *)
+Example C04_ex_lax :
+  lhvres_of_h (LaxPacketHeaders.from_ethernet ex_f5) =
+    LHOk (mkLHv (Some (HvlEthernet2 (0, 14))) [HvVlan (14, 4)] (Some (HvIpv4 (18, 20) None))
+                (Some (HvUdp (38, 8))) (LHvpUdp false (46, 0)) None) /\
+  lhvres_of_h (LaxPacketHeaders.from_ethernet (take 42 ex_f5)) =
+    LHOk (mkLHv (Some (HvlEthernet2 (0, 14))) [HvVlan (14, 4)] (Some (HvIpv4 (18, 20) None))
+                None (LHvpIp (mkLVIp true 17 false LsSlice (38, 4)))
+                (Some (ELen (mkLenError 8 4 LsSlice LyUdpHeader 38), LyUdpHeader))).
+Proof. split; vm_compute; reflexivity. Qed.
+
